@@ -24,6 +24,39 @@ SEEDS = {
  "C12-6": ("C12", 1, "mode without owner write/search and at least two missing components: intermediate directories get mode|0300", ["C12"], F),
  "C12-7": ("C12", 2, "two callers, one path a proper prefix of the other, one preemption after the first caller's mkdirat: 'directory I created must still be empty' check fails the first caller with a safety violation", ["C12"], F),
  "C12-8": ("C12", 3, "two callers, same path, different modes, loser finished its lookup before the winner's mkdirat: the loser fchmod()s the winner's directory to its own mode", ["C12"], F),
+ "C04-7": ("C04", 1, "emulated backend; one-shot open with O_PATH|O_DIRECTORY on a directory: the lookup handle is returned without re-opening, O_DIRECTORY missing in F_GETFL", ["C04", "C01"], F),
+ "C04-8": ("C04", 2, "emulated backend; a followed symlink whose body ends in '/' and names a non-directory: empty components of link bodies dropped", ["C04", "C01"], F),
+ "C04-9": ("C04", 3, "emulated backend; exactly 40 link traversals (limit lowered to 40 with '>=')", ["C04", "C01"], F),
+ "C05-6": ("C05", 1, "openat2 backend, a procfs handle that sees over-mounts, a mount on the looked-up path: after EXDEV the same multi-component openat2 is repeated WITHOUT RESOLVE_NO_XDEV 'for a better error message' (the result is EXDEV either way)", ["C05"], "missed first: no C05 scenario had an over-mount; procfs lookups through a host-visible handle under one racing mount/umount at every procfs syscall boundary were added (which also met the remaining candidates of the known error-formatting call site)"),
+ "C05-7": ("C05", 2, "kernel without openat2; open_subpath without O_PATH with a path spelled 'name/' or 'name/.': openat(root, 'esc/') - a two-byte-longer 'single component' that follows a symlink", ["C05", "C02"], "caught by the first quick run - through the trailing-slash lookups added to the race scenarios an hour earlier for seed C02-8"),
+ "C05-8": ("C05", 3, "mkdir_all; another process creates the next component as a symlink to a directory between the lookup and the mkdirat: after EEXIST + ENOTDIR the open is retried with the following variant", ["C05", "C03"], F),
+ "C06-6": ("C06", 1, "emulated procfs resolver, handle that sees host mounts, a symlink bind-mounted on a procfs symlink the lookup follows (self): mount check skipped for symlink components", ["C06"], F),
+ "C06-7": ("C06", 2, "fsopen unavailable, open_tree usable: OPEN_TREE_CLONE dropped, the 'private' handle is the host /proc; a mount placed while open_follow runs", ["C06"], F),
+ "C06-8": ("C06", 3, "user-supplied descriptor that is a bind mount of a procfs SUB-directory (/proc/<pid> mounted somewhere): 'is this the procfs root' decided by STATX_ATTR_MOUNT_ROOT", ["C06"], "missed first: every user-supplied descriptor of the check was a genuine procfs root; bind mounts of /proc/<pid>, /proc/sys, /proc/self/task offered to try_from_fd were added (refused, or else every answer must sit directly below a procfs root). patch.diff is the port to the current HEAD (the import line it touches was changed by repair 24)"),
+ "C07-6": ("C07", 1, "base ProcRoot, sub-path exactly 'self' / 'thread-self', O_DIRECTORY: a rebase helper returns the directory behind the link from the non-following open", ["C07"], F),
+ "C07-7": ("C07", 2, "emulated procfs resolver; trailing '/' folded onto the last component ('7/', '../'): the kernel follows it despite O_NOFOLLOW", ["C07"], F),
+ "C07-8": ("C07", 3, "open_follow with exactly one of O_CREAT / O_EXCL (contains instead of intersects)", ["C07", "C09"], F),
+ "C08-6": ("C08", 1, "root of a user namespace on a subset=pid /proc: recursion guard also compares mount ids, every clone is a new masked mount", ["C08"], F),
+ "C08-7": ("C08", 2, "exactly hidepid=2, unprivileged caller, path ENDING in a foreign pid directory (open(ProcRoot, '1')): a failing statx in verify_same_mnt reported as EXDEV instead of ENOENT", ["C08"], "missed first: the sub-paths only had foreign pid directories as intermediate components; '1' as the final component added (missing for an unprivileged caller under hidepid=2)"),
+ "C08-8": ("C08", 3, "multi-step: one ENOENT lookup while seteuid(1000), back to root, subset=pid host /proc, masked-but-existing path: a process-wide 'private mounts do not work' flag", ["C08"], "missed first: every caller kept one identity; a root caller that looked up a missing path while its effective uid was 1000 was added"),
+ "C09-6": ("C09", 1, "directory handle + creation flag: fast path openat(fd, '.') skips the refusal; reopen(dir, O_TMPFILE|O_RDWR) returns a new anonymous file", ["C09"], F),
+ "C09-7": ("C09", 2, "host /proc over-mounted (tmpfs): the thread-self spelling is probed on the host /proc instead of the private handle - panic; with only 'self' present a thread with its own descriptor table gets the leader's file", ["C09"], "first run printed the violations but ended with exit 2 (a preparatory lookup failed in another item of the disturbed-/proc family and was treated as a machinery error); failing / panicking preparatory lookups under a disturbed host /proc are now handled, exit 1"),
+ "C09-8": ("C09", 3, "no openat2 and no new mount API, symlinks bind-mounted over /proc/thread-self pointing at another process's task directory, that process holding another file on the same descriptor number", ["C09"], "missed first: the host-/proc states only covered <pid>/fd; links planted over /proc/self and /proc/thread-self that point at a decoy process (holding a decoy file on the handle's number and its neighbours) were added, for callers with and without the new mount API, both resolvers"),
+ "C13-6": ("C13", 1, "scan open through raw rustix openat (no O_NOFOLLOW); a third party swaps the directory for a symlink", ["C13", "C03", "C05"], F),
+ "C13-7": ("C13", 2, "path spelled 'x/.' ('a/.', 'link/.'): refusal re-implemented with file_name().is_none(), the directory's contents are deleted and EINVAL returned", ["C13"], F),
+ "C13-8": ("C13", 3, "named entry is a NON-directory and a second remove_all of the same path completes between the first caller's newfstatat and unlinkat: ENOENT instead of Ok", ["C13"], "missed first: all same-path caller groups removed directories; groups on a file and on a symlink added"),
+ "C14-6": ("C14", 1, "renameat2 flags refused (ENOSYS/EINVAL): RENAME_NOREPLACE emulated with fstatat + renameat", ["C14"], F),
+ "C14-7": ("C14", 2, "hardlink whose target has no directory part, created in a sub-directory: target looked up in the link's parent", ["C14"], F),
+ "C14-8": ("C14", 3, "create_file with O_PATH and '/..', './..', 'sub/../..'", ["C14", "C03"], F),
+ "C15-6": ("C15", 1, "sysctl 1, directory mode sticky + o+w WITHOUT o+r (1733, 1773): S_IRWXO instead of S_IWOTH", ["C15"], "missed first: the directory modes only toggled the sticky and o+w bits with the other 'other' bits at 7 or 5; mode 1773 added"),
+ "C15-7": ("C15", 2, "caller whose real and effective uids differ: geteuid() returns the real uid", ["C15"], F),
+ "C15-8": ("C15", 3, "'link/.' treated as trailing", ["C15"], F),
+ "C16-6": ("C16", 1, "caller without a usable /proc: errno of a failing openat2 read after the error-formatting readlink clobbered it (ENOTDIR reported as ENOENT)", ["C16", "C10"], "missed first: errno attribution was only checked with a working /proc, and the errno of a later REAL failing call was accepted even if that call was the error-formatting probe itself; tmpfs-proc items added, absolute /proc reads no longer count as 'the failing call'"),
+ "C16-7": ("C16", 2, "id range ends at -4095: needs the generator to draw the top of its range", ["C16"], F),
+ "C16-8": ("C16", 3, "RwLock: description rendered under the read lock, removal under the write lock - two threads get the same error", ["C16"], F),
+ "C17-6": ("C17", 1, "readlink buffer exactly as long as the link: NUL written one byte past it", ["C17"], F),
+ "C17-7": ("C17", 2, "pathrs_reopen with O_CREAT on a valid lent descriptor: closed on the refusal path", ["C17", "C11"], "missed first by C17 (its invalid-argument classes had no refused flag combination with a VALID descriptor); added"),
+ "C17-8": ("C17", 3, "procfs base compared on its low 32 bits", ["C17"], F),
 }
 def confirm_info(prop, n):
     p = f"/tmp/seed3/{prop}/confirm-{n}.log"
